@@ -123,6 +123,8 @@ def load_prop(pid):
 
 
 def setup_repo_import():
+    import warnings
+    warnings.filterwarnings('ignore')
     if core.REPO not in sys.path:
         sys.path.insert(0, core.REPO)
     import minecraft
